@@ -394,6 +394,9 @@ def gen_cs101(rng, stats, nops):
             for _ in range(rng.range(6, 14)):
                 lines.append("enq%d s%d %s" % (cls, i, L.asdu(nid).hex())); nid += 1
             stats["cs101:enqueue-flood"] = stats.get("cs101:enqueue-flood", 0) + 1
+        elif r < 93:
+            lines.append("mtest s%d" % i)
+            stats["cs101:link-test-request"] = stats.get("cs101:link-test-request", 0) + 1
         if mode == "unb":
             for j in range(ns):
                 lines.append("poll s%d" % (j + 1))
